@@ -1,51 +1,285 @@
-"""VMSA address translation reference (B3): FCSE, short-descriptor walk, domains, permissions, fault encoding."""
-from vf.ref.machine import Unpred, Skip, Abort, M32
+"""VMSA address translation reference (DDI 0406C B3): FCSE, short-descriptor walk, long-descriptor stage-1 walk, domains,
+permissions, TEX/MAIR memory types, fault syndromes.  Written from the manual's description, not from armulator."""
+from vf.ref.machine import Unpred, Skip, NotImpl, Abort, M32
+
+SO, DEVICE, NORMAL = 'strongly-ordered', 'device', 'normal'
 
 
-def translate_v(M, va, ispriv, iswrite, size, wasaligned):
+def bits(v, hi, lo):
+    return (v >> lo) & ((1 << (hi - lo + 1)) - 1)
+
+
+def fcse(M, va):
+    if (va >> 25) == 0:
+        return ((M.s.get('fcseidr', 0) >> 25) << 25) | va
+    return va
+
+
+def read_desc(M, pa, size, big):
+    v = M.pa_read(pa, size)
+    M.walk_reads = getattr(M, 'walk_reads', 0) + 1
+    if big:
+        v = int.from_bytes(v.to_bytes(size, 'little'), 'big')
+    return v
+
+
+def default_tex(texcb):
+    """memory type of table B3-10 (TEX remap disabled)"""
+    if texcb == 0b00000:
+        return SO
+    if texcb in (0b00001, 0b01000):
+        return DEVICE
+    if texcb in (0b00010, 0b00011, 0b00100, 0b00111) or (texcb >> 4) & 1:
+        return NORMAL
+    if texcb == 0b00110:
+        return None            # IMPLEMENTATION DEFINED
+    raise Unpred('reserved TEX/C/B encoding')
+
+
+def remapped_tex(M, texcb):
+    region = texcb & 7
+    if region == 6:
+        return None
+    tr = (M.s['prrr'] >> (2 * region)) & 3
+    return (SO, DEVICE, NORMAL, None)[tr]
+
+
+def walk_sd(M, mva, iswrite):
+    """returns dict(pa, domain, level, ap, memtype)"""
+    sctlr = M.s['sctlr']
+    ttbcr = M.s['ttbcr']
+    big = (sctlr >> 25) & 1
+    n = ttbcr & 7
+    if n == 0 or (mva >> (32 - n)) == 0:
+        ttbr = M.s['ttbr0_64']
+        disabled = (ttbcr >> 4) & 1
+    else:
+        ttbr = M.s['ttbr1_64']
+        disabled = (ttbcr >> 5) & 1
+        n = 0
+    if M.sec_ext() and disabled:
+        raise Abort('translation', mva, iswrite, {'level': 1, 'domain': None})
+    l1addr = (bits(ttbr, 31, 14 - n) << (14 - n)) | (bits(mva, 31 - n, 20) << 2)
+    if M.virt_ext() and not M.is_secure():
+        raise Skip('stage 2 on table walk')
+    l1 = read_desc(M, l1addr, 4, big)
+    kind = l1 & 3
+    if kind == 0:
+        raise Abort('translation', mva, iswrite, {'level': 1, 'domain': None})
+    afe = (sctlr >> 29) & 1
+    ha = (sctlr >> 17) & 1
+    if kind == 1:
+        domain = bits(l1, 8, 5)
+        l2addr = (bits(l1, 31, 10) << 10) | (bits(mva, 19, 12) << 2)
+        l2 = read_desc(M, l2addr, 4, big)
+        if (l2 & 3) == 0:
+            raise Abort('translation', mva, iswrite, {'level': 2, 'domain': domain})
+        ap = (bits(l2, 9, 9) << 2) | bits(l2, 5, 4)
+        if afe and not (l2 >> 4) & 1:
+            if not ha:
+                raise Abort('access_flag', mva, iswrite, {'level': 2, 'domain': domain})
+            raise Skip('hardware access flag update')
+        if not (l2 >> 1) & 1:
+            texcb = (bits(l2, 14, 12) << 2) | bits(l2, 3, 2)
+            pa = (bits(l2, 31, 16) << 16) | bits(mva, 15, 0)
+        else:
+            texcb = (bits(l2, 8, 6) << 2) | bits(l2, 3, 2)
+            pa = (bits(l2, 31, 12) << 12) | bits(mva, 11, 0)
+        level = 2
+    else:
+        ap = (bits(l1, 15, 15) << 2) | bits(l1, 11, 10)
+        texcb = (bits(l1, 14, 12) << 2) | bits(l1, 3, 2)
+        level = 1
+        if afe and not (l1 >> 10) & 1:
+            if not ha:
+                # the domain of a section is known, of a supersection it is 0
+                raise Abort('access_flag', mva, iswrite, {'level': 1, 'domain': None})
+            raise Skip('hardware access flag update')
+        if not (l1 >> 18) & 1:
+            domain = bits(l1, 8, 5)
+            pa = (bits(l1, 31, 20) << 20) | bits(mva, 19, 0)
+        else:
+            domain = 0
+            pa = (bits(l1, 8, 5) << 36) | (bits(l1, 23, 20) << 32) | (bits(l1, 31, 24) << 24) | bits(mva, 23, 0)
+    if not (sctlr >> 28) & 1:
+        if not M.hooked:
+            raise NotImpl('RemapRegsHaveResetValues')
+        memtype = default_tex(texcb)
+    else:
+        memtype = remapped_tex(M, texcb)
+    return dict(pa=pa, domain=domain, level=level, ap=ap, memtype=memtype)
+
+
+def walk_ld(M, ia, iswrite):
+    """stage-1 long-descriptor walk for the Non-Hyp translation regime"""
+    ttbcr = M.s['ttbcr']
+    big = (M.s['sctlr'] >> 25) & 1
+    ex = {'ldformat': True}
+    found = False
+    disabled = False
+    t0 = ttbcr & 7
+    if t0 == 0 or (ia >> (32 - t0)) == 0:
+        level = 1 if (t0 >> 1) == 0 else 2
+        lb = 9 * level - t0 - 4
+        base = (M.s['ttbr0_64'] >> lb << lb) & ((1 << 40) - 1)
+        if bits(M.s['ttbr0_64'], lb - 1, 3):
+            raise Unpred('TTBR0 base not aligned')
+        found = True
+        disabled = (ttbcr >> 7) & 1
+        start = 31 - t0
+    t1 = (ttbcr >> 16) & 7
+    ones = t1 > 0 and bits(ia, 31, 32 - t1) == (1 << t1) - 1
+    if (t1 == 0 and not found) or ones:
+        level = 1 if (t1 >> 1) == 0 else 2
+        lb = 9 * level - t1 - 4
+        base = (M.s['ttbr1_64'] >> lb << lb) & ((1 << 40) - 1)
+        if bits(M.s['ttbr1_64'], lb - 1, 3):
+            raise Unpred('TTBR1 base not aligned')
+        found = True
+        disabled = (ttbcr >> 23) & 1
+        start = 31 - t1
+    if not found or disabled:
+        raise Abort('translation', ia, iswrite, dict(ex, level=1))
+    first = True
+    rw, user, xnt, pxnt = True, True, False, False
+    secure = M.is_secure()
+    lookup_secure = secure
+    for _ in range(4):
+        offset = 9 * level
+        if first:
+            sel = bits(ia, start, 39 - offset) << 3
+        else:
+            sel = bits(ia, 47 - offset, 39 - offset) << 3
+        first = False
+        desc = read_desc(M, base | sel, 8, big)
+        if not desc & 1:
+            raise Abort('translation', ia, iswrite, dict(ex, level=level))
+        block = False
+        if not (desc >> 1) & 1:
+            if level == 3:
+                raise Abort('translation', ia, iswrite, dict(ex, level=level))
+            block = True
+        elif level == 3:
+            block = True
+        else:
+            base = bits(desc, 39, 12) << 12
+            lookup_secure = lookup_secure and not (desc >> 63) & 1
+            rw = rw and not (desc >> 62) & 1
+            user = user and not (desc >> 61) & 1
+            pxnt = pxnt or bool((desc >> 59) & 1)
+            xnt = xnt or bool((desc >> 60) & 1)
+            level += 1
+            continue
+        ialen = 39 - offset
+        pa = (bits(desc, 39, ialen) << ialen) | bits(ia, ialen - 1, 0)
+        attrs = (bits(desc, 54, 52) << 10) | bits(desc, 11, 2)
+        if not rw:
+            attrs |= 1 << 5
+        if not user:
+            attrs &= ~(1 << 4)
+        if not (attrs >> 8) & 1:
+            raise Abort('access_flag', ia, iswrite, dict(ex, level=level))
+        ap = (bits(attrs, 5, 4) << 1) | 1
+        idx = attrs & 7
+        mair = (M.s['mair1'] << 32) | M.s['mair0']
+        field = (mair >> (8 * idx)) & 0xFF
+        if (field >> 4) == 0:
+            memtype = {0: SO, 4: DEVICE}.get(field & 15)
+        else:
+            memtype = NORMAL
+        return dict(pa=pa, domain=None, level=level, ap=ap, memtype=memtype, ld=True)
+    raise Skip('walk deeper than 3 levels')
+
+
+def check_ap(M, ap, mva, ispriv, iswrite, extra):
+    if (M.s['sctlr'] >> 29) & 1:
+        ap |= 1
+    M.check_ap(ap, mva, ispriv, iswrite, pmsa=False, extra=extra)
+
+
+def translate_v(M, va, ispriv, iswrite, size, wasaligned, want_attrs=False):
+    mva = fcse(M, va)
     hyp = M.is_hyp()
-    if (va >> 25) == 0:                 # FCSETranslate()
-        va = ((M.s.get('fcseidr', 0) >> 25) << 25) | va
-    enabled = ((M.s['hsctlr'] & 1) if hyp else (M.s['sctlr'] & 1))
+    if hyp:
+        raise Skip('Hyp translation regime')
+    enabled = M.s['sctlr'] & 1
+    if M.virt_ext() and not M.is_secure() and (M.s['hcr'] & 1):
+        raise Skip('stage 2 translation')
     if not enabled:
         # stage 1 off: flat map, Strongly-ordered => an unaligned (byte-wise) access faults
+        if M.virt_ext() and not M.is_secure() and (M.s['hcr'] >> 12) & 1:
+            raise Skip('HCR.DC')
         if not wasaligned:
             if not M.virt_ext():
                 raise Unpred('unaligned access to Strongly-ordered memory (MMU off)')
-            raise Abort('alignment', va, iswrite)
-        if M.virt_ext() and not M.is_secure() and not hyp and (M.s['hcr'] & 1):
-            raise Skip('stage 2 translation')
-        return va
-    raise Skip('MMU on: see vf/ref/mmuwalk.py')
+            raise Abort('alignment', mva, iswrite)
+        return (mva, SO) if want_attrs else mva
+    if M.virt_ext() and not M.is_secure() and (M.s['hcr'] >> 27) & 1:
+        raise Unpred('HCR.TGE with stage 1 enabled')
+    uses_ld = bool((M.s['ttbcr'] >> 31) & 1)
+    if uses_ld:
+        if not M.cfg.get('have_lpae'):
+            raise Unpred('TTBCR.EAE without LPAE')
+        rec = walk_ld(M, mva, iswrite)
+    else:
+        rec = walk_sd(M, mva, iswrite)
+    if rec['memtype'] is None:
+        raise Skip('IMPLEMENTATION DEFINED / UNKNOWN memory type')
+    if not wasaligned and rec['memtype'] in (SO, DEVICE):
+        if not M.virt_ext():
+            raise Unpred('unaligned access to Device / Strongly-ordered memory')
+        raise Abort('alignment', mva, iswrite, {'ldformat': uses_ld})
+    extra = {'level': rec['level'], 'domain': rec['domain'], 'ldformat': uses_ld}
+    check = True
+    if not uses_ld:
+        d = (M.s['dacr'] >> (2 * rec['domain'])) & 3
+        if d == 0:
+            raise Abort('domain', mva, iswrite, extra)
+        if d == 2:
+            raise Unpred('DACR field 10')
+        check = d == 1
+    if check:
+        check_ap(M, rec['ap'], mva, ispriv, iswrite, extra)
+    return (rec['pa'], rec['memtype']) if want_attrs else rec['pa']
 
 
 SD_FS = {'alignment': 0b00001, 'translation': (0b00101, 0b00111), 'access_flag': (0b00011, 0b00110), 'domain': (0b01001, 0b01011),
          'permission': (0b01101, 0b01111)}
+LD_FS = {'translation': 0b000100, 'access_flag': 0b001000, 'permission': 0b001100}
 
 
 def report_abort(M, ab):
-    """DFSR/DFAR for a synchronous data abort on VMSA, short-descriptor format (B3.13, B4.1.52)"""
-    hyp = M.is_hyp() or (ab.kind == 'alignment' and M.virt_ext() and (M.s.get('hcr', 0) >> 27) & 1 and False)
-    if M.is_hyp() or ab.extra.get('ldformat') or (M.s.get('ttbcr', 0) >> 31) & 1:
-        raise Skip('Hyp-mode / long-descriptor fault syndromes')
+    """DFSR/DFAR for a synchronous data abort on VMSA (B3.13, B4.1.52)"""
+    if M.is_hyp():
+        raise Skip('Hyp-mode fault syndromes')
     if M.virt_ext() and (M.s.get('hcr', 0) >> 27) & 1 and ab.kind == 'alignment':
         raise Skip('alignment fault routed to Hyp mode (HCR.TGE)')
-    if M.cfg.get('have_lpae'):
+    addr = ab.addr & M32
+    if ab.kind == 'alignment':
+        addr = fcse(M, addr)
+    ld = ab.extra.get('ldformat') or (ab.kind == 'alignment' and (M.s.get('ttbcr', 0) >> 31) & 1)
+    if ld or M.cfg.get('have_lpae'):
         if not M.hooked:
             raise NotImpl('TLBLookupCameFromCacheMaintenance')
     level = ab.extra.get('level', 1)
+    if ld:
+        st = 0b100001 if ab.kind == 'alignment' else (LD_FS[ab.kind] | (level & 3))
+        v = ((1 if ab.iswrite else 0) << 11) | (1 << 9) | st
+        M.unknown_bits['dfsr'] = (1 << 10) | (7 << 6)
+        M.s['dfsr'] = (M.s['dfsr'] & ~0x3FFF) | v
+        M.s['dfar'] = addr
+        return
     fs = SD_FS[ab.kind]
     if isinstance(fs, tuple):
         fs = fs[level - 1]
     v = ((1 if ab.iswrite else 0) << 11) | ((fs >> 4) << 10) | (fs & 15)
+    dom = ab.extra.get('domain')
     domain_valid = ab.kind == 'domain' or (level == 2 and ab.kind in ('translation', 'access_flag')) or \
         (not M.cfg.get('have_lpae') and ab.kind == 'permission')
-    if domain_valid:
-        v |= (ab.extra.get('domain', 0) & 15) << 4
+    if domain_valid and dom is not None:
+        v |= (dom & 15) << 4
     else:
         M.unknown_bits['dfsr'] = 0xF0
+    M.unknown_bits['dfsr'] = M.unknown_bits.get('dfsr', 0) | (1 << 8)
     M.s['dfsr'] = (M.s['dfsr'] & ~0x3FFF) | v
-    addr = ab.addr & M32
-    if ab.kind == 'alignment' and (addr >> 25) == 0:
-        addr |= (M.s.get('fcseidr', 0) >> 25) << 25        # AlignmentFaultV reports the MVA
     M.s['dfar'] = addr
